@@ -784,8 +784,17 @@ func (s *SMT) VerifyProof(k []byte, v []byte, validateMembership bool, root []by
 		return false, ErrInvalidMerkleTreeProof()
 	}
 	// every node in the proof must carry a well-formed node key before any bit operation is done on it
+	// and a hash-sized value: a parent hashes key||value||key||value without length framing, so an entry whose
+	// key / value boundary was moved ({key[:j], key[j:]||value}) would otherwise reproduce the same root
+	// (the only values that are not hashes are those of the two fixed border leaves the tree is initialized with)
+	minKey, maxKey := newNodeKey(bytes.Repeat([]byte{0}, 20), s.keyBitLength).bytes(), newNodeKey(bytes.Repeat([]byte{255}, 20), s.keyBitLength).bytes()
 	for _, n := range proof {
 		if n == nil || !validNodeKey(n.Key, s.keyBitLength) {
+			return false, ErrInvalidMerkleTreeProof()
+		}
+		isBorder := (bytes.Equal(n.Key, minKey) && bytes.Equal(n.Value, bytes.Repeat([]byte{0}, 20))) ||
+			(bytes.Equal(n.Key, maxKey) && bytes.Equal(n.Value, bytes.Repeat([]byte{255}, 20)))
+		if len(n.Value) != crypto.HashSize && !isBorder {
 			return false, ErrInvalidMerkleTreeProof()
 		}
 	}
